@@ -24,4 +24,23 @@ def meshmeta(eq, mesh, spec):
     }
 
 
-EXTRACTORS = {"regions": regions, "meshmeta": meshmeta}
+def eqinfo(eq, mesh, spec):
+    out = {}
+    for k in ("psi_sep", "psi_axis", "psi_bdry", "psi_core", "psi_sol", "psi_sol_inner", "psi_pf_lower", "psi_pf_upper",
+              "double_null_type"):
+        if hasattr(eq, k):
+            v = getattr(eq, k)
+            out[k] = [float(x) for x in v] if isinstance(v, (list, tuple)) else (float(v) if isinstance(v, (int, float, np.floating)) else v)
+    for k in ("psi_core", "psi_sol", "psi_sol_inner", "psi_pf_lower", "psi_pf_upper", "psinorm_core", "psinorm_sol"):
+        try:
+            out["opt_" + k] = float(getattr(eq.user_options, k))
+        except Exception:
+            pass
+    if hasattr(eq, "x_points"):
+        out["x_points"] = [(float(p.R), float(p.Z)) for p in eq.x_points]
+    if hasattr(eq, "o_point"):
+        out["o_point"] = (float(eq.o_point.R), float(eq.o_point.Z))
+    return out
+
+
+EXTRACTORS = {"eqinfo": eqinfo, "regions": regions, "meshmeta": meshmeta}
